@@ -8,6 +8,11 @@ from ..facts import nhir, walk
 from ..interp import Interp, Opaque, Unsupported, Diverged, Var
 
 META = ("other",
+        "C11.R1/R2 token-tape tabulation: the CustomWithExpr arm (with whatever helpers it calls) and inject_parameters are "
+        "interpreted on every tape of abstract tokens of length <= 3 (<= 4 in the thorough tier) for the `?` and `$n` styles, with "
+        "exactly as many values as the tape designates and with spare ones, and the text written is compared with the property's "
+        "reading (mark -> designated value, doubled mark -> one mark, everything else verbatim); R3 the cust_with_* constructors "
+        "interpreted on 0..3 opaque values.  Code outside the interpreter's fragment is decided by the path rules instead:  "
         "C11.R1 token conservation in the CustomWithExpr arm: on every path through one iteration of the substitution loop the "
         "consumed tokens are written back verbatim, or form a placeholder replaced by exactly one prepare_simple_expr(&values[i]), "
         "or are a doubled mark replaced by one mark - no path consumes a token and emits nothing; the arm-selection table shows "
@@ -225,6 +230,210 @@ def check_custom_arm(run, f, cfg):
            sp=arm["sp"], cfg=cfg, detail=bad[:12] or None)
 
 
+# ---- token-tape tabulation ---------------------------------------------------------------------------------------------
+# The substitution code is interpreted on every short tape of abstract tokens (how text is split into tokens is C16's
+# subject), for both placeholder styles that the backends use, and its output compared with the property's own reading.
+
+class _Outside(Exception):
+    pass
+
+
+def tok(kind, text):
+    return Var(TOKEN + "::" + kind, [text])
+
+
+def tape_alphabet(mark):
+    return [tok("Punctuation", mark), tok("Punctuation", "+"), tok("Unquoted", "1"), tok("Unquoted", "2"), tok("Unquoted", "ab"),
+            tok("Quoted", "'" + mark + "'"), tok("Space", " ")]
+
+
+def tapes(mark, maxlen):
+    al = tape_alphabet(mark)
+    for n in range(0, maxlen + 1):
+        for t in product(al, repeat=n):
+            # the tokenizer's words and spaces are maximal runs: two of the same kind never touch
+            if any(a.d == b.d and a.d.rsplit("::", 1)[-1] in ("Unquoted", "Space") for a, b in zip(t, t[1:])):
+                continue
+            yield list(t)
+
+
+def kind_of(t):
+    return t.d.rsplit("::", 1)[-1]
+
+
+def reference(tape, mark, numbered, doubled, nvals):
+    """the property's reading of a tape: `?` by position, `$n` by number, (in templates) a doubled mark is one literal
+    mark, everything else verbatim.  None = the property does not speak (a lone mark on a numbered backend, out of range)"""
+    out, i, count = [], 0, 0
+    while i < len(tape):
+        t = tape[i]
+        nxt = tape[i + 1] if i + 1 < len(tape) else None
+        if kind_of(t) == "Punctuation" and t.fields[0] == mark:
+            if doubled and nxt is not None and kind_of(nxt) == "Punctuation" and nxt.fields[0] == mark:
+                out.append(mark)
+                i += 2
+                continue
+            if numbered:
+                if nxt is not None and kind_of(nxt) == "Unquoted":
+                    if nxt.fields[0].isdigit():
+                        n = int(nxt.fields[0])
+                        if not (1 <= n <= nvals):
+                            return None
+                        out.append("<V%d>" % (n - 1))
+                        i += 2
+                    else:
+                        out.append(mark)      # `$name` is not a placeholder
+                        i += 1
+                    continue
+                return None
+            if count >= nvals:
+                return None
+            out.append("<V%d>" % count)
+            count += 1
+            i += 1
+            continue
+        out.append(t.fields[0])
+        i += 1
+    return "".join(out)
+
+
+def tape_list(mark, maxlen):
+    return list(tapes(mark, maxlen))
+
+
+def value_counts(tape_iter, mark, numbered, doubled):
+    """every tape with exactly as many values as it designates (so that the counter reaches the end of the list), and with
+    spare ones"""
+    for tape in tape_iter:
+        need = None
+        for n in range(0, NVALS + 1):
+            if reference(tape, mark, numbered, doubled, n) is not None:
+                need = n
+                break
+        if need is None:
+            continue
+        yield tape, need
+        if need < NVALS:
+            yield tape, NVALS
+
+
+TEMPLATE = "<the template>"
+STYLES = [("?", False), ("$", True)]      # placeholder() of MySQL / SQLite, and of Postgres (C01 decides the table itself)
+NVALS = 4
+
+
+def tape_interp(f, mark, numbered, tape, value_call, self_names):
+    it = Interp(f)
+    it.max_depth = 12
+
+    def placeholder(it_, args):
+        if not (args and isinstance(args[0], Opaque) and args[0].tag in self_names):
+            raise _Outside("placeholder() of something other than the rendering backend")
+        return (mark, numbered)
+
+    def new_tokenizer(it_, args):
+        if args[0] != TEMPLATE:
+            raise _Outside("the tokenizer is not run over the template / statement text")
+        return ("__tokenizer",)
+    it.builtins = {QB + "::placeholder": placeholder, "crate::token::Tokenizer::new": new_tokenizer,
+                   "crate::token::Tokenizer::iter": lambda it_, args: list(tape),
+                   "crate::token::Token::as_str": lambda it_, args: args[0].fields[0],
+                   "crate::token::Token::is_quoted": lambda it_, args: kind_of(args[0]) == "Quoted"}
+    it.display_hook = lambda v: v.fields[0] if isinstance(v, Var) and v.d.startswith(TOKEN + "::") else None
+    it.opaque_call = lambda e: (e.get("callee") or "") == value_call or (H.callee(e) or "") == value_call
+    return it
+
+
+def _text_of(it, sink):
+    return "".join(t for r, t in it.out if r == sink)
+
+
+def check_tapes(run, f, cfg):
+    """returns the set of parts ('custom', 'inject') decided by tabulation"""
+    decided = set()
+    maxlen = 4 if run.tier == "thorough" else 3
+    # (1) the CustomWithExpr arm, wherever its code lives (helpers are interpreted through)
+    name, arm = find_custom_arm(f)
+    if arm is not None and len(arm["pat"].get("subs") or []) == 2:
+        tmpl, vals = [s_.get("name") for s_ in arm["pat"]["subs"]]
+        fn = f.fns[name]
+        sink = fn["params"][-1]["pat"].get("name") or "sql"
+        bad, rows, outside = [], 0, None
+        try:
+            for mark, numbered in STYLES:
+                for tape, nvals in value_counts(tape_list(mark, maxlen), mark, numbered, True):
+                    want = reference(tape, mark, numbered, True, nvals)
+                    rows += 1
+                    it = tape_interp(f, mark, numbered, tape, QB + "::prepare_simple_expr", {"self"})
+
+                    def value(it_, e, env, depth, it=it):
+                        v = it_.ev(e["args"][0], env, depth)
+                        if not (isinstance(v, str) and v.startswith("<V")):
+                            raise _Outside("prepare_simple_expr on something other than a supplied value")
+                        it_.out.append((H.place(e["args"][1]), v))
+                        return ()
+                    it.unknown_call = value
+                    env = {"self": Opaque("self"), sink: Opaque(sink), tmpl: TEMPLATE, vals: ["<V%d>" % i for i in range(nvals)]}
+                    try:
+                        it.ev(arm["body"], env)
+                        got = _text_of(it, sink)
+                    except (Diverged, IndexError) as e_:
+                        got = "<panic: %s>" % e_
+                    if got != want:
+                        bad.append("%s%s on %s with %d values: writes %r, expected %r" % (mark, "n" if numbered else "", " ".join(repr(t.fields[0]) for t in tape), nvals, got, want))
+        except (Unsupported, _Outside) as e_:
+            outside = str(e_)
+        if outside is None:
+            decided.add("custom")
+            run.ob("C11.R1", "custom:tape-table", not bad,
+                   "the CustomWithExpr arm interpreted on %d (token tape, value list) rows (tapes of length <= %d over mark, other punctuation, numbers, a "
+                   "word, a quoted literal holding the mark, a space; styles `?` and `$n`; exactly as many values as designated, and %d): marks are replaced by the value they designate, a doubled mark gives one "
+                   "mark, every other token is written unchanged%s" % (rows, maxlen, NVALS, "" if not bad else " - EXCEPT " + "; ".join(bad[:4])),
+                   sp=arm["sp"], cfg=cfg, detail=bad[:12] or None)
+            run.floor("C11.R1", "custom-tape-rows", rows, 300, cfg)
+        else:
+            run.notes.append("C11 CustomWithExpr arm outside the interpreter's fragment (%s): decided by the path rules" % outside)
+    # (2) inject_parameters
+    iname = "crate::prepare::inject_parameters"
+    ifn = f.fns.get(iname)
+    if ifn is not None and ifn.get("hir") is not None and len(ifn["params"]) == 3:
+        qb = ifn["params"][2]["pat"].get("name")
+        bad, rows, outside = [], 0, None
+        try:
+            for mark, numbered in STYLES:
+                for tape, nvals in value_counts(tape_list(mark, maxlen), mark, numbered, False):
+                    want = reference(tape, mark, numbered, False, nvals)
+                    rows += 1
+                    it = tape_interp(f, mark, numbered, tape, QB + "::value_to_string", {qb})
+
+                    def value(it_, e, env, depth):
+                        v = it_.ev(e["args"][0], env, depth)
+                        if not (isinstance(v, str) and v.startswith("<V")):
+                            raise _Outside("value_to_string on something other than a supplied value")
+                        return v
+                    it.unknown_call = value
+                    try:
+                        got = it.call_fn(iname, [TEMPLATE, ["<V%d>" % i for i in range(nvals)], Opaque(qb)])
+                        if isinstance(got, list) and all(isinstance(x, str) for x in got):
+                            got = "".join(got)          # `collect::<String>()`
+                    except (Diverged, IndexError) as e_:
+                        got = "<panic: %s>" % e_
+                    if got != want:
+                        bad.append("%s%s on %s with %d values: returns %r, expected %r" % (mark, "n" if numbered else "", " ".join(repr(t.fields[0]) for t in tape), nvals, got, want))
+        except (Unsupported, _Outside) as e_:
+            outside = str(e_)
+        if outside is None:
+            decided.add("inject")
+            run.ob("C11.R2", "inject:tape-table", not bad,
+                   "inject_parameters interpreted on %d (token tape, value list) rows (tapes of length <= %d; styles `?` and `$n`; exactly as many values as designated, and %d): every placeholder becomes the inline "
+                   "form of the value it designates, every other token is copied%s" % (rows, maxlen, NVALS, "" if not bad else " - EXCEPT " + "; ".join(bad[:4])),
+                   sp=ifn["sp"], cfg=cfg, detail=bad[:12] or None)
+            run.floor("C11.R2", "inject-tape-rows", rows, 300, cfg)
+        else:
+            run.notes.append("C11 inject_parameters outside the interpreter's fragment (%s): decided by the path rules" % outside)
+    return decided
+
+
 def check_inject(run, f, cfg):
     name = "crate::prepare::inject_parameters"
     fn = f.fns.get(name)
@@ -293,6 +502,37 @@ def check_inject(run, f, cfg):
            "the result is the concatenation of the pushed pieces in order", sp=fn["sp"], cfg=cfg, detail=names)
 
 
+def _strip(v):
+    """remove constructor wrappers (SimpleExpr::Value(..) etc.) around the opaque markers"""
+    while isinstance(v, Var) and len(v.fields) == 1:
+        v = v.fields[0]
+    return v
+
+
+def constructor_by_interp(f, name, single):
+    """interpret Expr::cust_with_* on a template marker and 0..3 value markers (conversions abstracted to the identity);
+    returns a list of deviations, or raises Unsupported"""
+    bad = []
+    for n in ([1] if single else [0, 1, 2, 3]):
+        it = Interp(f)
+        it.free_opaque = True
+        it.opaque_conversions = True
+        vals = [Opaque("v%d" % i) for i in range(n)]
+        r = it.call_fn(name, [Opaque("template"), vals[0] if single else list(vals)])
+        if not (isinstance(r, Var) and r.d == "crate::expr::SimpleExpr::CustomWithExpr" and len(r.fields) == 2):
+            bad.append("returns %r" % (r,))
+            continue
+        t, vs = r.fields
+        if not (isinstance(t, Opaque) and t.tag == "template"):
+            bad.append("template stored as %r" % (t,))
+        if not isinstance(vs, list):
+            raise Unsupported("value list %r" % (vs,))
+        got = [_strip(x) for x in vs]
+        if [getattr(x, "tag", None) for x in got] != [v.tag for v in vals]:
+            bad.append("%d values stored as %r" % (n, got))
+    return bad
+
+
 def check_constructors(run, f, cfg):
     E = "crate::expr::Expr"
     for nm in ("cust_with_values", "cust_with_expr", "cust_with_exprs"):
@@ -300,6 +540,13 @@ def check_constructors(run, f, cfg):
         if fn is None:
             run.anchor("C11.R3", nm, "not found", cfg)
             continue
+        try:
+            bad = constructor_by_interp(f, E + "::" + nm, nm == "cust_with_expr")
+            run.ob("C11.R3", nm, not bad, "Expr::%s stores the template text and the values unchanged and in order (interpreted on 0..3 opaque values)%s" % (
+                nm, "" if not bad else " - NOT: " + "; ".join(bad)), sp=fn["sp"], cfg=cfg)
+            continue
+        except (Unsupported, Diverged) as e_:
+            run.notes.append("C11.R3 %s outside the interpreter's fragment (%s): decided by its shape" % (nm, e_))
         ps = P.fn_paths(fn["hir"])
         v = H.peel_ref(ps[0].value) if len(ps) == 1 else {}
         ok = v.get("k") == "call" and v.get("callee") == "crate::expr::SimpleExpr::CustomWithExpr"
@@ -317,8 +564,13 @@ def check_constructors(run, f, cfg):
 def check(run):
     for cfg in run.tier_configs(["default"], ["all"]):
         f = run.facts(cfg)
-        check_custom_arm(run, f, cfg)
-        check_inject(run, f, cfg)
+        # the tabulation decides whatever lies in the interpreter's fragment; the path rules (which recognise one coding of
+        # the loop) decide the rest and fail closed on a shape they do not know
+        decided = check_tapes(run, f, cfg)
+        if "custom" not in decided:
+            check_custom_arm(run, f, cfg)
+        if "inject" not in decided:
+            check_inject(run, f, cfg)
         check_constructors(run, f, cfg)
     run.assumptions.append("how arbitrary template text is split into tokens is decided under C16")
     run.assumptions.append("not decided: inject_parameters(build(s)) == to_string(s) for every statement (depends on re-lexing every literal form); "
